@@ -135,7 +135,8 @@ Record fenv : Type := {
   e_files : list ((nat * string) * gfile);     (* (reader index, path with prefix) *)
   e_readers : list nat;                        (* registration order *)
   e_prefixes : list string;                    (* _LOCATION_PREFIXES, '' first *)
-  e_modules : list string }.                   (* importable module names *)
+  e_modules : list string;                     (* importable module names *)
+  e_mod_regs : list (string * list cspec) }.   (* configurables that importing module m registers (its decorators run) *)
 Definition rp_eqb (a b : nat * string) : bool := Nat.eqb (fst a) (fst b) && String.eqb (snd a) (snd b).
 
 (* os.path.join / isabs for POSIX paths *)
@@ -162,6 +163,28 @@ Definition resolve_file (env : fenv) (name : string) : option (string * gfile) :
          | None => outer r
          end
      end) prefixes.
+
+(* ---- imports with side effects: importing module m runs its decorators, which register configurables ---- *)
+Definition set_reg r (s : tstate) := {| t_reg := r; t_consts := t_consts s; t_store := t_store s; t_prov := t_prov s;
+  t_imports := t_imports s; t_locked := t_locked s |}.
+Definition list_str_eqb (a b : list string) : bool :=
+  Nat.eqb (List.length a) (List.length b) && forallb (fun p => String.eqb (fst p) (snd p)) (combine a b).
+Definition cspec_eqb (a b : cspec) : bool :=
+  String.eqb (cs_sel a) (cs_sel b) && list_str_eqb (cs_args a) (cs_args b) && Bool.eqb (cs_varkw a) (cs_varkw b)
+  && list_str_eqb (cs_allow a) (cs_allow b) && list_str_eqb (cs_deny a) (cs_deny b).
+Definition mod_regs (env : fenv) (m : string) : list cspec :=
+  match al_get String.eqb m (e_mod_regs env) with Some cs => cs | None => [] end.
+(* c is already in the registry under its selector *)
+Definition registered (s : tstate) (c : cspec) : bool :=
+  match fget (to_key (cs_sel c)) (sm_flat (t_reg s)) with Some c' => cspec_eqb c c' | None => false end.
+Definition reg_add (cs : list cspec) (r : smap cspec) : smap cspec :=
+  fold_left (fun r c => sm_set (to_key (cs_sel c)) c r) cs r.
+(* a module imported before does nothing (Python caches modules); registering while locked is the RuntimeError *)
+Definition register_mod (env : fenv) (m : string) (s : tstate) : sres tstate :=
+  let cs := mod_regs env m in
+  if forallb (registered s) cs then SOk s
+  else if t_locked s then SErr (SEOther "RuntimeError" [])
+  else SOk (set_reg (reg_add cs (t_reg s)) s).
 
 Definition str_of_value (v : out) : string := match v with OT "str" [OS s] => s | _ => "" end.
 
@@ -215,7 +238,11 @@ Fixpoint apply_stmts (env : fenv) (sk : skip_unknown) (fname : string) (inc : in
           | _ => (s, with_loc (fname, line) (SErr (SEOther "ValueError" [])))
           end
       | SImport m is_from alias line =>
-          if str_in m (e_modules env) then apply_stmts env sk fname inc rest s (imports ++ [m]) incl
+          if str_in m (e_modules env) then
+            match register_mod env m s with
+            | SErr e => (s, with_loc (fname, line) (SErr e))
+            | SOk s' => apply_stmts env sk fname inc rest s' (imports ++ [m]) incl
+            end
           else if sk_truthy sk then apply_stmts env sk fname inc rest s imports incl
           else (s, with_loc (fname, line) (SErr (SEOther "ModuleNotFoundError" [])))
       | SInclude v line =>
